@@ -10,7 +10,7 @@
               class identity through children / get_elements / xpath / parent / clone / get_element, arguments stored
               through hand-written properties or other code (kinds StoredCond, NonProp, Unrecognised of the table). *)
 From Coq Require Import String List Bool. Import ListNotations. Open Scope string_scope.
-Require Import Registry Registryproof Attr Attrproof Gen_Registry Gen_Ctors C12tab C12lift.
+Require Import Registry Registryproof Attr Attrproof Gen_Registry Gen_Ctors C12defs C12tab C12lift.
 
 (* ------------------------------------------------------------------ (A) dispatch, for all registration sequences *)
 
